@@ -363,6 +363,14 @@ func condCall(t *T, callee string) *T {
 	if t != nil && t.Op == "call" && t.Aux == callee {
 		return t
 	}
+	// an index search compared with a constant: IndexByte(x, c) < 0, >= 0, == -1, != -1
+	if t != nil && t.Op == "binop" && len(t.A) == 2 {
+		for k := 0; k < 2; k++ {
+			if _, isN := t.A[1-k].intVal(); isN && t.A[k].Op == "call" && t.A[k].Aux == callee {
+				return t.A[k]
+			}
+		}
+	}
 	return nil
 }
 
@@ -880,6 +888,9 @@ func rulePXGroupRender(c *Ctx) []Obligation {
 				wantAlt = want
 			}
 		}
+		// a value the path knows to equal a constant is that constant (the separator written as
+		// g.separator under the fact separator == ",")
+		after = segsByFacts(F, after)
 		okAfter := matchSegs(after, want) || matchSegs(after, wantAlt)
 		key := "after the items: "
 		if wantNL {
@@ -2556,6 +2567,11 @@ func rulePXEntries(c *Ctx, part string) []Obligation {
 					} else if len(p.Ret) == 1 {
 						r := p.Ret[0]
 						okText := fmtEv != nil && r.String() == fmtEv.Res.String()+"#0" || (es.recvType == "File" && F.Has("recv.NoFormat", true))
+						if !okText && fmtEv != nil {
+							// the same bytes collected by a writer of the module's own (copied once)
+							ts := segsString(termTemplate(r))
+							okText = ts == "[%s("+fmtEv.Res.String()+"#0)]" || ts == "[%v("+fmtEv.Res.String()+"#0)]"
+						}
 						t.note("GoString returns exactly the rendered, formatted text", okText, "path %s returns %s", traceOf(p), r)
 					}
 				}
@@ -2978,10 +2994,27 @@ func (c *Ctx) commentSource(deep string) string {
 	tag := "{" + c.commentField() + ":"
 	i := strings.Index(deep, tag)
 	if i < 0 {
+		// the text field after other fields that all have their zero value (a flag added to the struct)
+		if k := strings.Index(deep, ","+c.commentField()+":"); k >= 0 {
+			if b := strings.LastIndex(deep[:k], "{"); b >= 0 {
+				zero := true
+				for _, fv := range strings.Split(deep[b+1:k], ",") {
+					if !(strings.HasSuffix(fv, ":false") || strings.HasSuffix(fv, ":0") || strings.HasSuffix(fv, `:""`) || strings.HasSuffix(fv, ":nil")) {
+						zero = false
+					}
+				}
+				if zero {
+					deep = deep[:b] + tag + deep[k+len(","+c.commentField()+":"):]
+					i = strings.Index(deep, tag)
+				}
+			}
+		}
+	}
+	if i < 0 {
 		return "?" + deep
 	}
 	rest := deep[i+len(tag):]
-	j := strings.Index(rest, "}")
+	j := strings.IndexAny(rest, "},")
 	if j < 0 {
 		return "?" + deep
 	}
@@ -3535,6 +3568,7 @@ func rulePXCtor(c *Ctx) []Obligation {
 	ft := c.fileType()
 	n := 0
 	guess := c.role("guessAlias")
+	pathField := c.ff("path")
 	for _, f := range c.allFuncs(c.Jen) {
 		if f.Parent() != nil || f.Signature.Recv() != nil || f.Signature.Results().Len() != 1 || !isExportedName(f.Name()) {
 			continue
@@ -3590,6 +3624,13 @@ func rulePXCtor(c *Ctx) []Obligation {
 				}
 			}
 			t.note("the File's group is a fresh multi-line group without delimiters", okG, "path %s: Group = %s — top-level declarations must each start on their own line", traceOf(p), p.Deep(g))
+			// the package path: the caller's string, unmodified (isLocal compares paths for equality,
+			// so a normalised copy makes the File's own path foreign — and a near miss local)
+			if pv := p.fieldOfObj(r, pathField); pv != nil {
+				if s0, isS := pv.strVal(); !(isS && s0 == "") {
+					t.note("the path stored is the caller's path argument, unmodified", pv.Op == "param", "path %s stores %s as the File's path", traceOf(p), pv)
+				}
+			}
 		}
 		t.require("returns a freshly allocated File", "imports is a fresh empty map", "hints is a fresh empty map", "the File's group is a fresh multi-line group without delimiters")
 		t.flush()
@@ -3971,4 +4012,33 @@ func (c *Ctx) litPanicOnPaths(pos token.Pos) bool {
 		reached = true
 	}
 	return reached
+}
+
+// segsByFacts: value segments whose term the facts equate with a string constant become literals.
+func segsByFacts(F Facts, segs []pseg) []pseg {
+	var out []pseg
+	for _, sg := range segs {
+		if sg.Val != nil && (sg.Verb == "s" || sg.Verb == "v" || sg.Verb == "") {
+			vs := sg.Val.String()
+			repl := false
+			for atom, pol := range F {
+				if !pol || !strings.HasPrefix(atom, `eq("`) || !strings.HasSuffix(atom, ","+vs+")") {
+					continue
+				}
+				lit := atom[3 : len(atom)-len(","+vs+")")]
+				if u, err := strconv.Unquote(lit); err == nil {
+					sg = pseg{Lit: u}
+					repl = true
+					break
+				}
+			}
+			_ = repl
+		}
+		if sg.Val == nil && len(out) > 0 && out[len(out)-1].Val == nil {
+			out[len(out)-1].Lit += sg.Lit
+			continue
+		}
+		out = append(out, sg)
+	}
+	return out
 }
